@@ -1,4 +1,4 @@
-\* code: handle and writer registration are two steps -- must violate FrozenNeverGrows
+\* the code BEFORE the repair 81b03b7: handle and writer registration are two steps -- must violate NoWriteIntoClosed
 CONSTANTS
   Leader = {1}
   MaxRow = 2
@@ -11,6 +11,7 @@ CONSTANTS
   RetryFailed = TRUE
   ClosedRejects = TRUE
   AtomicWrite = FALSE
+  RegisterAtGet = FALSE
   AtomicEvict = TRUE
   UniqueStamp = TRUE
   EvictChecksRef = TRUE
@@ -19,5 +20,5 @@ CONSTANTS
   AckFrozen = TRUE
 SPECIFICATION MCSpec
 INVARIANTS TypeOK
-PROPERTIES FrozenNeverGrows
+PROPERTIES NoWriteIntoClosed
 CHECK_DEADLOCK FALSE
